@@ -26,7 +26,7 @@ NSHARDS = 16
 
 
 def plan(tier, seed):
-    n = 80 if tier == "quick" else 5000
+    n = 80 if tier == "quick" else 2000
     return [{"name": "s%d" % i, "seed": seed, "shard": i, "n": n} for i in range(NSHARDS)]
 
 
